@@ -208,3 +208,29 @@ func Verif_C05_K3_Relevance() {
 	}
 	v.Assert(got == want, "relevance-matches-property-text")
 }
+
+// Verif_C05_K6_FilesystemOwnedDirs: every directory of the two lists of
+// directories owned by the filesystem package is recognised (a tree that passes
+// through one of them must leave it an implied directory, which rpm does not
+// claim), and a path that is not listed is not.
+func Verif_C05_K6_FilesystemOwnedDirs() {
+	v.Reach("K6.ran")
+	ok := true
+	for _, p := range fsPaths {
+		if !ownedByFilesystem(p) || !ownedByFilesystem(p+"/") {
+			ok = false
+		}
+	}
+	v.Assert(ok, "every-filesystem-directory-is-recognised")
+	ok = true
+	for _, p := range logrotatePaths {
+		if !ownedByFilesystem(p) {
+			ok = false
+		}
+	}
+	v.Assert(ok, "every-logrotate-directory-is-recognised")
+	s := "/" + v.NondetStringRange("other", 1, 3)
+	v.Assume(v.AllIn(s[1:], "q-z"))
+	v.Assume(s != "/run" && s != "/srv" && s != "/sys" && s != "/tmp" && s != "/usr" && s != "/var" && s != "/sbin" && s != "/root" && s != "/proc" && s != "/opt")
+	v.Assert(!ownedByFilesystem(s), "unlisted-directory-is-not-filesystem-owned")
+}
